@@ -26,6 +26,11 @@ def _forcing_dir():
     return _worker["dir"]
 
 
+def first_release_step(c):
+    """some runs release nothing at the start: their first records are empty, and are records all the same"""
+    return 1 if (c.get("late") and c["nsteps"] > 2) else 0
+
+
 def second_release_step(nsteps):
     return 2 if nsteps > 2 else None
 
@@ -37,7 +42,8 @@ def run_case(c):
     start = 0
     stop = sg * (c["nsteps"] * DT + c["resid"])
     with lab.scratch() as d:
-        rows = [dict(release_time=0, X=3.0, Y=4.0, Z=5.0, mult=2)]
+        r1 = first_release_step(c)
+        rows = [dict(release_time=sg * r1 * DT, X=3.0, Y=4.0, Z=5.0, mult=2)]
         r2 = second_release_step(c["nsteps"])
         if r2 is not None:
             rows.append(dict(release_time=sg * r2 * DT, X=6.5, Y=5.25, Z=1.0, mult=1))
@@ -78,14 +84,16 @@ def model_request(c):
     ref_off = (c["nsteps"] * DT + c["resid"]) if c["rev"] else 0   # reference = min(start, stop)
     snaps = []
     r2 = second_release_step(c["nsteps"])
+    r1 = first_release_step(c)
     for step in range(0, c["nsteps"]):
         if step % c["period"] != 0:
             continue
-        n = 2 + (1 if r2 is not None and step >= r2 else 0)
+        n = (2 if step >= r1 else 0) + (1 if r2 is not None and step >= r2 else 0)
         X = ["3", "3", "13/2"][:n]
+        t1 = sg * r1 * DT + ref_off
         snaps.append(dict(time=sg * step * DT + ref_off, pid=list(range(n)), alive=[True] * n,
                           cols=dict(X=X), npid=n,
-                          pvars=dict(release_time=[ref_off, ref_off, sg * (r2 or 0) * DT + ref_off][:n]) if c["pvars"] else {}))
+                          pvars=dict(release_time=[t1, t1, sg * (r2 or 0) * DT + ref_off][:n]) if c["pvars"] else {}))
     stem = Path(c["outname"]).stem
     return dict(op="outrun", layout=c["layout"], nsteps=c["nsteps"], period=c["period"], numrec=c["numrec"],
                 stem=stem, suffix=".nc", skip_initial=False, first_step=0, last_step=c["nsteps"] - 1, snapshots=snaps)
@@ -151,7 +159,7 @@ def cases(ctx: Ctx):
                                 continue
                             resid = 0 if k % 4 else DT // 2
                             out.append(dict(nsteps=ns, period=p, numrec=nr, layout=layout, rev=rev, pvars=pv,
-                                            resid=resid, outname=names[k % 3] if nr else "out.nc"))
+                                            resid=resid, outname=names[k % 3] if nr else "out.nc", late=bool(k % 5 == 3)))
     return out
 
 
